@@ -633,6 +633,91 @@ def r_zonefmt(prog, R):
     r.require(n >= 2, "fewer writers of ->ll_iface than confirmed by hand (%d)" % n)
 
 
+def _char_pred_set(prog, g):
+    """set of byte values for which the one-character predicate g returns true (exact evaluation of its CFG), or None"""
+    import evalx
+    if len(g.params) != 1:
+        return None
+    pn = g.params[0]["n"]
+    out = set()
+    try:
+        for ch in range(1, 256):
+            v = ch if ch < 128 else ch - 256      # plain char is signed here
+            res = evalx.run_cfg(g, {pn: v})
+            if res[0] != "ret":
+                return None
+            if evalx.ev(evalx._leafify(strip(res[1].get("e"))), {pn: v}):
+                out.add(ch)
+    except evalx.Unknown:
+        return None
+    return out
+
+
+def _zone_set(prog, f, c):
+    """characters the validator call c (applied to the zone string) accepts"""
+    alnum = set(range(48, 58)) | set(range(65, 91)) | set(range(97, 123))
+    if c.get("callee") == "ares_str_isalnum":
+        return alnum
+    t = prog.resolve(f, c)
+    if t is None:
+        return None
+    preds = [prog.resolve(t, cc) for _, _, cc in t.calls()]
+    preds = [g for g in preds if g is not None and len(g.params) == 1 and (g.params[0].get("ty") or "") in ("char", "unsigned char", "int")]
+    if len(preds) != 1 or not t.natural_loops():
+        return None
+    return _char_pred_set(prog, preds[0])
+
+
+def r_ifaceset(prog, R):
+    r = R.rule("R-C16-IFACESET", "every interface name the plain server syntax accepts can also be rendered in the dns:// URI form (needed as soon as UDP and TCP port differ): the "
+               "zone check of ares_uri_set_host accepts at least the characters of parse_nameserver's interface charset", floor=5,
+               analysis="sibling agreement: literal charset of the reader vs exact evaluation of the URI zone validator's character predicate")
+    pn = prog.func("parse_nameserver")
+    acc = None
+    for b, i, c in pn.calls():
+        if c.get("callee") == "ares_buf_consume_charset" and c.get("args"):
+            a = strip(c["args"][1])
+            lit = None
+            if a is not None and a.get("k") == "str":
+                lit = a["s"]
+            elif is_var(a):
+                for b2, i2, el in pn.elements():
+                    if el["k"] == "decl":
+                        for v in el["vars"]:
+                            if v["n"] == a["n"] and v.get("init") is not None and strip(v["init"]).get("k") == "str":
+                                lit = strip(v["init"])["s"]
+            if lit is not None and "abcdefghijklmnopqrstuvwxyz" in lit:
+                acc = {ord(ch) for ch in lit}
+    if not r.require(acc is not None, "parse_nameserver: interface charset literal not found"):
+        return
+    uh = prog.func("ares_uri_set_host")
+    zs = None
+    site = None
+    for b, i, c in uh.calls():
+        if c.get("args") and len(c["args"]) == 1 and is_var(strip(c["args"][0])) and "scope" in strip(c["args"][0])["n"] and c.get("callee") not in ("ares_strlen",):
+            zs = _zone_set(prog, uh, c)
+            site = c
+    if not r.require(zs is not None, "ares_uri_set_host: zone validator not interpretable"):
+        return
+    missing = sorted(acc - zs)
+    r.info["reader_charset"] = "".join(chr(x) for x in sorted(acc))
+    r.info["uri_zone_charset"] = "".join(chr(x) for x in sorted(zs))
+    for x in sorted(acc):
+        if chr(x).isalnum():
+            continue
+        k = "URI zone accepts %r" % chr(x)
+        if x in zs:
+            r.ok(k, uh.loc(site["ln"]))
+        else:
+            r.viol(k, uh.name, uh.loc(site["ln"]), "the plain syntax accepts %r in an interface name, the URI zone check does not: a link-local server on such an interface whose UDP and TCP ports differ "
+                   "cannot be rendered -- ares_get_servers_csv() returns NULL and ares_dup() fails" % chr(x))
+    k = "URI zone accepts letters and digits"
+    if [x for x in acc if chr(x).isalnum() and x not in zs]:
+        r.viol(k, uh.name, uh.loc(site["ln"]), "the URI zone check refuses letters or digits the plain syntax accepts")
+    else:
+        r.ok(k, uh.loc(site["ln"]))
+
+
 def run(prog, R, tier):
     R.assume("string-level round trip of the server list (CSV/URI rendering) is not decided here")
     init = r_mask(prog, R)
@@ -644,6 +729,7 @@ def run(prog, R, tier):
     r_setatomic(prog, R)
     r_duporder(prog, R)
     r_zonefmt(prog, R)
+    r_ifaceset(prog, R)
     # what save/dup/apply copy is copied whole: arrays are sized in units of their element type
     import sizerules
     sizerules.elemsize_rule(prog, R, "R-C16-ELEMSIZE", files={"src/lib/ares_options.c", "src/lib/ares_init.c", "src/lib/ares_sysconfig.c", "src/lib/ares_sysconfig_files.c",
